@@ -458,7 +458,7 @@ def lift_program(rng: random.Random, prog: list, v0: dict, names: dict, p: float
         elif k in ("blackman", "kaiser"):
             w["area"] = L(w["area"])
         elif k == "interp" and "arr" in names and rng.random() < p and len(w["values"]) >= 1:
-            w["values"] = {"e": "arr", "name": "arr"} if rng.random() < 0.6 else {"e": "arr", "name": "arr", "sl": [0, 2]}
+            w["values"] = {"e": "arr", "name": "arr"} if rng.random() < 0.6 else {"e": "arr", "name": "arr", "sl": G.pick(rng, [[0, 2], [0, 2], [1, 3], [None, None, -1], [None, None, 2], [2, None, -1], [-2, None]])}
         return w
 
     def same_duration(amp, det):
